@@ -325,6 +325,8 @@ def main(replay=None):
                 wm = models.split_hemispheres(1.0, [1.15], (1.0, 0.33), [0.0125], 1); wm["info"]["topology"] = "split"; return wm
             if name == "split-zero":
                 wm = models.split_hemispheres(1.0, [1.2], (0.0, 0.0), [0.33], 1); wm["info"]["topology"] = "split-zero"; return wm
+            if name == "outer-zero":
+                wm = models.nested([0.7, 0.85, 1.0], [1.0, 0.0, 0.0], 0); wm["info"]["topology"] = "nested-zero"; return wm
             if name == "flips":
                 wm = models.nested([0.6, 1.0], [1.0, 0.33], 0); wm["info"]["topology"] = "nested"
                 return gd.redescribe(gd.redescribe(wm, cr, "mesh_flip"), cr, "local_flips")
